@@ -9,6 +9,7 @@ every table from AA[ii], CC[ii].  R-map - ssi.ac2mp: lambda_c = log(lambda_d)/dt
 R-unit-norm / degrees: see C08; Hankel lags: see C12.  Not decided: that identified values equal the system's (numerics, conditioning).
 """
 import ast
+import re
 
 from .. import astq, symidx, mapform
 from ..program import rel, AnalysisError
@@ -232,6 +233,13 @@ def check(prog, run):
                 H, br = pos[0], pos[1]
                 expw = P_div(P.s(f"{H}.shape[0]"), P.s(br) + 1)
                 okw = w_down == expw
+                def _resolved(sym_):
+                    t_ = sym_
+                    for a_ in (f"{H}.shape[0]", f"{H}.shape[1]", br):
+                        t_ = t_.replace(a_, "")
+                    return not re.search(r"[A-Za-z_]", t_)
+                if not okw and any(not _resolved(s_) for k_ in w_down.t for s_, _e in k_):
+                    okw = None          # written in terms that were not resolved to the extent of H and br
                 ob("R-shift", "shift = channel count = H.shape[0]/(br+1)", okw, f"w = {w_down!r}", repr(w_down), acall)
             else:
                 s = repr(w_down)
@@ -290,8 +298,12 @@ def poles_slot(prog, run):
     pAA, pCC = pos[1], pos[2]
     # the ac2mp call and the table stores in the order loop
     stores = []
+    # the tables that are handed back (work arrays of the uncertainty branch are no pole tables)
+    returned = {astq.alias_root(pf.node, x.id) for r in ast.walk(pf.node) if isinstance(r, ast.Return) and r.value is not None for x in ast.walk(r.value) if isinstance(x, ast.Name)}
     for n in ast.walk(pf.node):
         if isinstance(n, ast.Assign) and isinstance(n.targets[0], ast.Subscript) and isinstance(n.targets[0].value, ast.Name):
+            if returned and astq.alias_root(pf.node, n.targets[0].value.id) not in returned and n.targets[0].value.id not in returned:
+                continue
             el = astq.index_elts(n.targets[0])
             if len(el) >= 2:
                 stores.append((n, el[1]))
